@@ -298,6 +298,8 @@ def elem_eq(a, b):
         return elem_eq(b, a)
     if isinstance(a, SBool) and isinstance(b, SBool):
         return _simp_bool(a.e == b.e)
+    if isinstance(a, SRl) and isinstance(b, SRl):
+        return _simp_bool(a.r == b.r)
     return None
 
 
@@ -376,11 +378,13 @@ def cast_elem(x, dtype, casting="unsafe"):
         return SDy.of(x, dtype)
     if isinstance(x, SBool) and dtype.kind == "b":
         return x
+    if isinstance(x, SRl) and dtype.kind == "f":
+        return SRl(x.r, dtype)
     raise OutsideModel(f"cast of {type(x).__name__} to {dtype}")
 
 
 def is_elem(x):
-    return isinstance(x, (SBV, SFB, SIV, SDy))
+    return isinstance(x, (SBV, SFB, SIV, SDy, SRl))
 
 
 # ----------------------------------------------------------------- the array
@@ -570,7 +574,7 @@ class SArray:
             return self
         same_repr = (dtype.kind == self.dtype.kind and dtype.itemsize == self.dtype.itemsize)
         if same_repr:
-            out = self.a.copy() if copy else self.a
+            out = self.a.copy(order="K") if copy else self.a
             if dtype.kind in _INT_KINDS or dtype.kind == "f":
                 out = _map(lambda x: _retag(x, dtype), out)
             return SArray(out, dtype)
@@ -579,7 +583,11 @@ class SArray:
     def tobytes(self, order="C"):
         n = self.dtype.itemsize
         bs = []
-        for x in self.a.ravel(order=order if order in ("C", "F") else "C"):
+        if order == "A":
+            order = "F" if (self.a.flags.f_contiguous and not self.a.flags.c_contiguous) else "C"
+        elif order in (None, "K"):
+            order = "C"
+        for x in self.a.ravel(order=order):
             if isinstance(x, SBV) and x.is_concrete():
                 bs += list(builtins.int(z3.simplify(x.e).as_long()).to_bytes(n, "little"))
             else:
@@ -734,17 +742,19 @@ def _retag(x, dtype):
         return SFB(x.e, dtype)
     if isinstance(x, SDy):
         return SDy(x.m, x.e, x.nb, dtype, chk=False)
+    if isinstance(x, SRl):
+        return SRl(x.r, dtype)
     return x
 
 
 def _map(f, a):
+    # like NumPy's default order='K': a Fortran-contiguous input gives a Fortran-contiguous result
+    forder = a.ndim > 1 and a.flags.f_contiguous and not a.flags.c_contiguous
     if a.size == 0:
-        return real_np.empty(a.shape, dtype=object)
-    out = real_np.empty(a.shape, dtype=object)
-    src = a.reshape(-1) if a.flags.c_contiguous else a.flatten()
-    flat = out.reshape(-1)
-    for i in range(src.size):
-        flat[i] = f(src[i])
+        return real_np.empty(a.shape, dtype=object, order="F" if forder else "C")
+    out = real_np.empty(a.shape, dtype=object, order="F" if forder else "C")
+    for idx in real_np.ndindex(*a.shape):
+        out[idx] = f(a[idx])
     return out
 
 
@@ -1369,3 +1379,96 @@ def _elem_from_bytes(bs, dt):
     if dt.kind == "f":
         return SFB(w, dt)
     raise OutsideModel(f"frombuffer dtype {dt}")
+
+
+# ----------------------------------------------------------------- exact real elements (affine algebra)
+
+class SRl:
+    """Exact real number (z3 Real): used only where the claim is about the real-arithmetic meaning
+    of a formula (rounding excluded and said so)."""
+    __slots__ = ("r", "dtype")
+    __array_ufunc__ = None
+
+    def __init__(self, r, dtype=real_np.float64):
+        self.r = r
+        self.dtype = real_np.dtype(dtype)
+
+    @staticmethod
+    def of(x):
+        if isinstance(x, SRl):
+            return x
+        if isinstance(x, (builtins.int, builtins.float, real_np.number)):
+            f = builtins.float(x)
+            n, d = f.as_integer_ratio()
+            return SRl(z3.RealVal(n) / z3.RealVal(d) if d != 1 else z3.RealVal(n))
+        if isinstance(x, SBV) and x.is_concrete():
+            v = z3.simplify(x.e)
+            return SRl(z3.RealVal(v.as_signed_long() if x.signed else v.as_long()))
+        if isinstance(x, SDy):
+            m = z3.simplify(x.m)
+            if z3.is_int_value(m):
+                n, d = x.value_num_den()
+                return SRl(z3.RealVal(z3.simplify(n).as_long()) / d)
+        raise OutsideModel(f"cannot view {type(x).__name__} as an exact real")
+
+    def __add__(self, o): return SRl(z3.simplify(self.r + SRl.of(o).r))
+    __radd__ = __add__
+    def __sub__(self, o): return SRl(z3.simplify(self.r - SRl.of(o).r))
+    def __rsub__(self, o): return SRl(z3.simplify(SRl.of(o).r - self.r))
+    def __mul__(self, o): return SRl(z3.simplify(self.r * SRl.of(o).r))
+    __rmul__ = __mul__
+    def __truediv__(self, o): return SRl(z3.simplify(self.r / SRl.of(o).r))
+    def __rtruediv__(self, o): return SRl(z3.simplify(SRl.of(o).r / self.r))
+    def __neg__(self): return SRl(z3.simplify(-self.r))
+    def __lt__(self, o): return SBool(self.r < SRl.of(o).r)
+    def __le__(self, o): return SBool(self.r <= SRl.of(o).r)
+    def __gt__(self, o): return SBool(self.r > SRl.of(o).r)
+    def __ge__(self, o): return SBool(self.r >= SRl.of(o).r)
+    def __eq__(self, o): return SBool(self.r == SRl.of(o).r)
+    def __ne__(self, o): return SBool(self.r != SRl.of(o).r)
+    __hash__ = None
+
+    def __zexpr__(self):
+        return self.r
+
+    def __repr__(self):
+        return f"SRl({self.r})"
+
+
+def h_dot_real(a, b, **kw):
+    a = _as_sarray(a)
+    b = _as_sarray(b)
+    if a.ndim == 2 and b.ndim == 2:
+        out = real_np.empty((a.shape[0], b.shape[1]), dtype=object)
+        for i in range(a.shape[0]):
+            for j in range(b.shape[1]):
+                acc = None
+                for k in range(a.shape[1]):
+                    t = a.a[i, k] * b.a[k, j]
+                    acc = t if acc is None else acc + t
+                out[i, j] = acc
+        return SArray(out, a.dtype)
+    if a.ndim == 2 and b.ndim == 1:
+        out = real_np.empty((a.shape[0],), dtype=object)
+        for i in range(a.shape[0]):
+            acc = None
+            for k in range(a.shape[1]):
+                t = a.a[i, k] * b.a[k]
+                acc = t if acc is None else acc + t
+            out[i] = acc
+        return SArray(out, a.dtype)
+    raise OutsideModel("np.dot of these shapes")
+
+
+def h_det(a, **kw):
+    a = _as_sarray(a)
+    if a.shape != (3, 3):
+        raise OutsideModel("determinant of a non 3x3 matrix")
+    m = a.a
+    return (m[0, 0] * (m[1, 1] * m[2, 2] - m[1, 2] * m[2, 1])
+            - m[0, 1] * (m[1, 0] * m[2, 2] - m[1, 2] * m[2, 0])
+            + m[0, 2] * (m[1, 0] * m[2, 1] - m[1, 1] * m[2, 0]))
+
+
+HANDLERS["dot"] = h_dot_real
+HANDLERS["det"] = h_det
